@@ -9,8 +9,13 @@ OPS = ["Add", "Sub", "Neg", "AddAssign", "SubAssign"]
 SYM = {"add": "+", "sub": "-"}
 
 
-def derive_list(L):
-    ts = ["Clone", "Debug"] + list(L["D"])
+def wname(guise):
+    """the field type: W, or its Copy twin Wc (then Copy is derived next to Clone: the derived Clone must still call the field's clone)"""
+    return "::dx_support::Wc" if "copy" in guise else "::dx_support::W"
+
+
+def derive_list(L, guise=()):
+    ts = (["Copy"] if "copy" in guise else []) + ["Clone", "Debug"] + list(L["D"])
     if L["dvar"]:
         ts.append("Default")
     if L["ops"]:
@@ -46,16 +51,16 @@ def fsrc(L, vi, j):
     return L["variants"][vi - 1]["fields"][j].get("src", "f%d" % j)
 
 
-GUISES = ["paren_ty", "alias_ty", "proj_ty", "empty_where", "raw_fields", "foreign_attrs", "macro_ty", "trailing_commas", "param_default", "vis"]
+GUISES = ["copy", "copy", "paren_ty", "alias_ty", "proj_ty", "empty_where", "raw_fields", "foreign_attrs", "macro_ty", "trailing_commas", "param_default", "vis"]
 
 
 def item_src(L, entry, order=0, generic=False, guise=()):
     """the item as a user might write it.  `guise`: purely syntactic variations that mean the same (parenthesised / aliased / projected
     field types, an empty where-clause, raw field names, foreign attributes between the helper attributes, the item produced by
     macro_rules! with the field type passed as a `ty` fragment, trailing commas in attribute lists, a defaulted parameter, visibility)"""
-    ts = derive_list(L)
+    ts = derive_list(L, guise)
     slot = generic_slot(L) if generic else None
-    gp = ("<G = %s>" % W if "param_default" in guise else "<G>") if slot else ""
+    gp = ("<G = %s>" % wname(guise) if "param_default" in guise else "<G>") if slot else ""
     if order == 1:
         ts = list(reversed(ts))
     tc = ", " if "trailing_commas" in guise else ""
@@ -69,6 +74,7 @@ def item_src(L, entry, order=0, generic=False, guise=()):
         head = "#[derive(::derive_ex::Ex)] #[derive_ex(%s%s)]%s#[derive_ex(%s)]" % (", ".join(ts[:k]), tc, mid, ", ".join(ts[k:]))
     if "foreign_attrs" in guise:
         head = "#[doc = \"item\"] " + head + " #[allow(dead_code)]"
+    W = wname(guise)
     wty = W
     if "macro_ty" in guise and any(o["sel"] == "key" for v in L["variants"] for f in v["fields"] for o in f["cmp"].values()):
         guise = [g for g in guise if g != "macro_ty"]       # (`$` of a key expression cannot be written inside a macro_rules! body)
@@ -85,7 +91,7 @@ def item_src(L, entry, order=0, generic=False, guise=()):
     def fields(v, vi=0):
         fs = []
         for j, f in enumerate(v["fields"]):
-            f = dict(f, kty="eq")
+            f = dict(f, kty="eq", ty="wc" if "copy" in guise else "w")
             a = cf.attrs_src(f, L["mode"])
             if "trailing_commas" in guise:
                 a = a.replace(")]", ", )]")
@@ -142,7 +148,7 @@ def pat(L, vi, names):
     return path(L, vi)
 
 
-def helpers(L, generic=False):
+def helpers(L, generic=False, W=W):
     """user-side helpers written by hand (no derived code): projection of a value and a copy that calls nothing on W"""
     arms_p, arms_d = [], []
     for vi, v in enumerate(L["variants"], 1):
@@ -161,11 +167,12 @@ def helpers(L, generic=False):
 
 
 def life_module(idx, L, hist, entry, order=0, variables=("a", "b", "c"), generic=False, guise=()):
+    W = wname(guise)
     vs = list(variables)
     n1 = len(L["variants"][0]["fields"])
     first = ctor(L, 1, ["%s(0, %d)" % (W, j) for j in range(n1)])
     pool = "format!(\"{{%s}}\", %s)" % (",".join("\\\"%s\\\":{}" % v for v in vs), ", ".join("proj(&p%s)" % v for v in vs))
-    lines = ["pub mod m%d {" % idx, "    " + item_src(L, entry, order, generic, guise), helpers(L, generic), "    pub fn run() -> String {",
+    lines = ["pub mod m%d {" % idx, "    " + item_src(L, entry, order, generic, guise), helpers(L, generic, wname(guise)), "    pub fn run() -> String {",
              "        let mut out = String::new();"]
     for v in vs:
         lines.append("        let mut p%s: LfT = %s;" % (v, first))
